@@ -3,6 +3,7 @@
 from __future__ import annotations
 
 import ast
+import re
 import sys
 from pathlib import Path
 
@@ -15,6 +16,7 @@ from gv.astutil import stmts_of
 from gv.astutil import walk_body
 from gv.dataflow import SymValues
 from gv.props import describe
+from gv.props.shared import unfolded
 from gv.report import Ctx
 from gv.report import cname
 
@@ -31,10 +33,15 @@ describe(
         "a derivative depends on the correlation length eps if and only if SciPy's kernel of the same name "
         "depends on epsilon; the Jacobian routine selects the derivative by the kernel name, feeds it the "
         "differences to the learning points and the SciPy model's own epsilon, weights it by the model's nodes; "
-        "the surrogate discipline returns exactly the model's predictions and Jacobian for its own input data."
+        "the surrogate discipline returns exactly the model's predictions and Jacobian for its own input data; "
+        "the affine scaler's four maps agree (inverse o transform = identity, each Jacobian is the derivative of its map, "
+        "proved on component-wise terms with sympy; MinMaxScaler and StandardScaler inherit them); the PCA Jacobians are "
+        "the chain rule of the compositions that transform / inverse_transform compute; the Jacobian of a regressor with "
+        "transformers is J_{T_out^-1}(raw(T_in(x))) @ J_raw(T_in(x)) @ J_{T_in}(x), each factor at its own point, in "
+        "each of the four configurations (with / without input and output transformer)."
     ),
-    decided=["18.1 kernel/derivative agreement on the use of epsilon", "18.2 surrogate discipline pass-through", "18.5 OpenTURNS gradients transposed"],
-    not_decided=["Jacobian = derivative of the prediction for every regressor and transformer pipeline", "interpolation of the learning data", "transformer inverse identities"],
+    decided=["18.1 kernel/derivative agreement on the use of epsilon", "18.2 surrogate discipline pass-through", "18.5 OpenTURNS gradients transposed", "18.3 pipeline chain rule", "18.4 mixture of experts by cluster label", "18.6 affine scaler maps and Jacobians (symbolic)", "18.7 PCA chain rule", "18.8 regressor Jacobian through the transformers"],
+    not_decided=["Jacobian = derivative of the raw prediction for the regressors other than RBF (linear, polynomial, GP, PCE...)", "interpolation of the learning data", "inverse identities of the power transforms, PLS and KLSVD (delegated to scikit-learn / OpenTURNS)"],
     trusted=["the installed scipy/interpolate/_rbf.py is the code scipy.interpolate.Rbf runs"],
 )
 
@@ -798,12 +805,273 @@ def check_openturns_gradients(ctx: Ctx) -> None:
     ctx.floor("18.5-openturns-gradient", 2)
 
 
+SCL = "mlearning/transformers/scaler/scaler.py"
+PCA_ = "mlearning/transformers/dimension_reduction/pca.py"
+RDF = "mlearning/data_formatters/regression_data_formatters.py"
+
+
+def _single_return_alts(f: ast.AST) -> list[ast.AST]:
+    rets = [s for s in stmts_of(f) if isinstance(s, ast.Return) and s.value is not None]
+    if len(rets) != 1:
+        return []
+    return SymValues(f).exprs(rets[0].value)
+
+
+def check_scaler(ctx: Ctx) -> None:
+    """18.6 the four maps of the affine scaler agree: inverse_transform undoes transform, the two Jacobians are the
+    derivatives of the two maps.  Component-wise terms (right product with diag(v) scales component j by v_j)."""
+    import sympy as sp
+
+    from gv import symexpr
+
+    cls = ctx.index.cls(SCL, "Scaler")
+    x, c, o = sp.Symbol("x", real=True), sp.Symbol("c", positive=True), sp.Symbol("o", real=True)
+
+    def term(e, diag_entry=False):
+        """the j-th component of the expression, as a function of the j-th component x of the data"""
+        if isinstance(e, ast.Constant) and isinstance(e.value, (int, float)) and not isinstance(e.value, bool):
+            return sp.nsimplify(e.value)
+        if isinstance(e, ast.Name):
+            return x if e.id == "data" else None
+        if isinstance(e, ast.Attribute) and dotted(e.value) == "self":
+            return {"coefficient": c, "offset": o}.get(e.attr)
+        if isinstance(e, ast.UnaryOp) and isinstance(e.op, ast.USub):
+            v = term(e.operand, diag_entry)
+            return None if v is None else -v
+        if isinstance(e, ast.BinOp):
+            if isinstance(e.op, ast.MatMult):
+                # data @ diag(v): component j scaled by v_j
+                if isinstance(e.right, ast.Call) and last_attr(e.right) == "diag" and len(e.right.args) == 1 and not e.right.keywords:
+                    a, b = term(e.left), term(e.right.args[0])
+                    return None if a is None or b is None else a * b
+                return None
+            a, b = term(e.left, diag_entry), term(e.right, diag_entry)
+            if a is None or b is None:
+                return None
+            ops = {ast.Add: lambda: a + b, ast.Sub: lambda: a - b, ast.Mult: lambda: a * b, ast.Div: lambda: a / b, ast.Pow: lambda: a**b}
+            f_ = ops.get(type(e.op))
+            return f_() if f_ else None
+        if isinstance(e, ast.Call) and not e.keywords:
+            fn = last_attr(e) or dotted(e.func)
+            if fn == "tile" and e.args:
+                return term(e.args[0], diag_entry)  # one copy per sample
+            if fn == "diag" and len(e.args) == 1 and diag_entry:
+                return term(e.args[0])  # the (j, j) entry of the Jacobian
+        return None
+
+    maps = {}
+    for name, is_jac in (("transform", False), ("inverse_transform", False), ("compute_jacobian", True), ("compute_jacobian_inverse", True)):
+        f = cls.methods.get(name)
+        ctx.need(f is not None, f"Scaler.{name} not found")
+        data = [a.arg for a in f.args.args if a.arg != "self"]
+        alts = _single_return_alts(f)
+        ts = []
+        for e in alts:
+            if data and data[0] != "data":
+                e = ast.parse(re.sub(rf"\b{re.escape(data[0])}\b", "data", ast.unparse(e)), mode="eval").body
+            ts.append(term(e, diag_entry=is_jac))
+        maps[name] = ts if ts and all(t is not None for t in ts) else None
+    con = cname(SCL, "Scaler", "inverse_transform")
+    t, inv = maps["transform"], maps["inverse_transform"]
+    understood = t is not None and inv is not None
+    ok = understood and all(symexpr.equal(i.subs(x, tt), x, positive=("c",)) is True for tt in t for i in inv)
+    ctx.ob("18.6-scaler", con, bool(ok), "inverse_transform(transform(x)) must be x component by component: transform is x*coefficient + offset, so the inverse is (x - offset)/coefficient" + ("" if understood else " (the maps are not affine expressions of data, self.coefficient, self.offset that the rule can read)"), node=cls.methods["inverse_transform"], stmt="inverse_transform o transform = identity")
+    for jname, mname in (("compute_jacobian", "transform"), ("compute_jacobian_inverse", "inverse_transform")):
+        j, m = maps[jname], maps[mname]
+        ok = j is not None and m is not None and all(symexpr.equal(jj, sp.diff(mm, x), positive=("c",)) is True for jj in j for mm in m)
+        ctx.ob("18.6-scaler", cname(SCL, "Scaler", jname), bool(ok), f"{jname} must be the derivative of {mname}: a diagonal matrix whose entries are d {mname}(x)_j / d x_j", node=cls.methods[jname], stmt=f"{jname} = d {mname} / d data")
+    ctx.floor("18.6-scaler", 3)
+    # the setters keep the parameters the maps read: a subclass fits by assigning self.coefficient / self.offset
+    for sub_rel, sub_name in (("mlearning/transformers/scaler/min_max_scaler.py", "MinMaxScaler"), ("mlearning/transformers/scaler/standard_scaler.py", "StandardScaler")):
+        sub = ctx.index.cls(sub_rel, sub_name)
+        overridden = sorted(set(sub.methods) & {"transform", "inverse_transform", "compute_jacobian", "compute_jacobian_inverse"})
+        fit = sub.methods.get("_fit")
+        stored = {t_.attr for s_ in (stmts_of(fit) if fit is not None else ()) if isinstance(s_, ast.Assign) for t_ in s_.targets if isinstance(t_, ast.Attribute) and dotted(t_.value) == "self"}
+        ctx.ob("18.6-scaler", cname(sub_rel, sub_name, "_fit"), not overridden and {"coefficient", "offset"} <= stored, f"{sub_name} inherits the four maps of Scaler and fits them by setting both self.coefficient and self.offset (overridden: {overridden}, set: {sorted(stored)})", node=fit or sub.node, stmt="fit sets coefficient and offset; maps inherited")
+
+
+def _mentions(e: ast.AST, what: str) -> bool:
+    return any(isinstance(n, ast.Attribute) and n.attr.endswith(what) for n in ast.walk(e))
+
+
+def _is_call_of(e: ast.AST, owner: str, method: str) -> ast.AST | None:
+    """the single argument of ``self.<...owner>.<method>(arg)``, else None"""
+    if isinstance(e, ast.Call) and isinstance(e.func, ast.Attribute) and e.func.attr == method and dotted(e.func.value) and dotted(e.func.value).split(".")[-1].endswith(owner) and dotted(e.func.value).startswith("self."):
+        return _only_argument(e, "data")
+    return None
+
+
+def _components(e: ast.AST) -> str | None:
+    """'C' for tile(self.algo.components_, ...), 'CT' for the transposed matrix (inside or outside the tile)"""
+    transposed = False
+    for _ in range(4):
+        if isinstance(e, ast.Attribute) and e.attr == "T":
+            transposed = not transposed
+            e = e.value
+        elif isinstance(e, ast.Call) and last_attr(e) == "tile" and e.args:
+            e = e.args[0]
+        elif isinstance(e, ast.Call) and last_attr(e) in ("transpose", "swapaxes") :
+            return None
+        else:
+            break
+    if isinstance(e, ast.Attribute) and e.attr == "components_" and dotted(e.value) == "self.algo":
+        return "CT" if transposed else "C"
+    return None
+
+
+def check_pca(ctx: Ctx) -> None:
+    """18.7 PCA = (scikit-learn projection) o (scaler): the Jacobians follow the chain rule of the very compositions
+    that transform / inverse_transform compute (outer Jacobian on the left, inner one at the data entering it)."""
+    cls = ctx.index.cls(PCA_, "PCA")
+    m = cls.methods
+    ctx.need(all(k in m for k in ("transform", "inverse_transform", "compute_jacobian", "compute_jacobian_inverse")), "PCA maps not found")
+
+    def param(f):
+        return [a.arg for a in f.args.args if a.arg != "self"][0]
+
+    # transform: algo.transform(scaler.transform(data))
+    alts = _single_return_alts(m["transform"])
+    d = param(m["transform"])
+    ok_t = bool(alts)
+    for e in alts:
+        inner = _is_call_of(e, "algo", "transform")
+        arg = _is_call_of(inner, "scaler", "transform") if inner is not None else None
+        ok_t = ok_t and arg is not None and norm_stmt(arg) == d
+    ctx.ob("18.7-pca", cname(PCA_, "PCA", "transform"), ok_t, "transform projects the SCALED data: algo.transform(scaler.transform(data))", node=m["transform"], stmt="transform = projection o scaler")
+    alts = _single_return_alts(m["compute_jacobian"])
+    d = param(m["compute_jacobian"])
+    ok = bool(alts)
+    for e in alts:
+        lr = _product(e)
+        arg = _is_call_of(lr[1], "scaler", "compute_jacobian") if lr else None
+        ok = ok and lr is not None and _components(lr[0]) == "C" and arg is not None and norm_stmt(arg) == d
+    ctx.ob("18.7-pca", cname(PCA_, "PCA", "compute_jacobian"), bool(ok and ok_t), "chain rule of transform: components_ (Jacobian of the projection) on the LEFT of the scaler's Jacobian taken at the data", node=m["compute_jacobian"], stmt="compute_jacobian = components_ @ J_scaler(data)")
+    # inverse_transform: scaler.inverse_transform(algo.inverse_transform(data))
+    alts = _single_return_alts(m["inverse_transform"])
+    d = param(m["inverse_transform"])
+    ok_i = bool(alts)
+    for e in alts:
+        inner = _is_call_of(e, "scaler", "inverse_transform")
+        arg = _is_call_of(inner, "algo", "inverse_transform") if inner is not None else None
+        ok_i = ok_i and arg is not None and norm_stmt(arg) == d
+    ctx.ob("18.7-pca", cname(PCA_, "PCA", "inverse_transform"), ok_i, "inverse_transform unscales the lifted data: scaler.inverse_transform(algo.inverse_transform(data))", node=m["inverse_transform"], stmt="inverse_transform = unscaler o lift")
+    alts = _single_return_alts(m["compute_jacobian_inverse"])
+    d = param(m["compute_jacobian_inverse"])
+    ok = bool(alts)
+    for e in alts:
+        lr = _product(e)
+        at = _is_call_of(lr[0], "scaler", "compute_jacobian_inverse") if lr else None
+        lifted = _is_call_of(at, "algo", "inverse_transform") if at is not None else None
+        ok = ok and lr is not None and _components(lr[1]) == "CT" and lifted is not None and norm_stmt(lifted) == d
+    ctx.ob("18.7-pca", cname(PCA_, "PCA", "compute_jacobian_inverse"), bool(ok and ok_i), "chain rule of inverse_transform: the unscaler's Jacobian, taken at the LIFTED data, on the left of components_.T (Jacobian of the lift)", node=m["compute_jacobian_inverse"], stmt="compute_jacobian_inverse = J_unscaler(lift(data)) @ components_.T")
+
+
+def check_transformed_jacobian(ctx: Ctx) -> None:
+    """18.8 the Jacobian of a regressor with transformers is the chain rule of what predict computes:
+    predict = T_out^-1 o raw o T_in, so J = J_{T_out^-1}(raw(T_in(x))) @ J_raw(T_in(x)) @ J_{T_in}(x)."""
+    outer = ctx.index.method(RDF, "RegressionDataFormatters", "transform_jacobian")
+    con = cname(RDF, "RegressionDataFormatters", "transform_jacobian")
+    ws = [n for n in ast.walk(outer) if isinstance(n, ast.FunctionDef) and n is not outer]
+    ctx.need(len(ws) == 1, "the wrapper of transform_jacobian not found")
+    w = ws[0]
+    func = outer.args.args[-1].arg
+    params = [a.arg for a in w.args.args]
+    ctx.need(len(params) >= 2, "wrapper(algo, input_data, ...) expected")
+    algo, x = params[0], params[1]
+    sv = SymValues(w, max_alts=8, max_len=1200)
+    rets = [s for s in stmts_of(w) if isinstance(s, ast.Return) and s.value is not None]
+    ctx.need(len(rets) == 1, "one return expected in the wrapper of transform_jacobian")
+
+    def group_of(e):
+        for t_ in sv.texts(e):
+            for g in ("INPUT_GROUP", "OUTPUT_GROUP"):
+                if t_.endswith("." + g):
+                    return g
+        return None
+
+    def group(e):  # 'INPUT_GROUP' / 'OUTPUT_GROUP' of algo.transformer[<group>]
+        if isinstance(e, ast.Subscript) and norm_stmt(e.value) == f"{algo}.transformer":
+            return next((g for g in ("INPUT_GROUP", "OUTPUT_GROUP") if ast.unparse(e.slice).endswith("." + g)), None)  # locals are unfolded already
+        return None
+
+    def tcall(e, method):
+        """(group, argument) of algo.transformer[group].method(argument)"""
+        if isinstance(e, ast.Call) and isinstance(e.func, ast.Attribute) and e.func.attr == method:
+            g = group(e.func.value)
+            a = _only_argument(e, "data")
+            if g is not None and a is not None:
+                return g, a
+        return None
+
+    def is_tx(e, transformed):  # the transformed input T_in(x) when there is an input transformer, else x itself
+        if not transformed:
+            return norm_stmt(e) == x
+        tc = tcall(e, "transform")
+        return tc is not None and tc[0] == "INPUT_GROUP" and norm_stmt(tc[1]) == x
+
+    # the tests "is there a transformer for the inputs / the outputs"
+    tests = {}
+    for n in stmts_of(w):
+        if isinstance(n, ast.If) and isinstance(n.test, ast.Compare) and len(n.test.ops) == 1 and isinstance(n.test.ops[0], ast.In) and norm_stmt(n.test.comparators[0]) == f"{algo}.transformer":
+            g = group_of(n.test.left)
+            if g is not None:
+                tests.setdefault(g, set()).add(norm_stmt(n.test))
+    ctx.need(set(tests) == {"INPUT_GROUP", "OUTPUT_GROUP"}, "the tests `<group> in algo.transformer` of transform_jacobian not found")
+    ok_out = ok_model = ok_in = ok_raw = True
+    n_with_out = n_with_in = 0
+    for has_in in (True, False):
+        for has_out in (True, False):
+            facts = {**{t_: has_in for t_ in tests["INPUT_GROUP"]}, **{t_: has_out for t_ in tests["OUTPUT_GROUP"]}}
+            alts = unfolded(w, rets[0], facts, get=lambda st: st.value, max_len=1200)
+            if not alts:
+                ok_model = False
+                continue
+            for e in alts:
+                lr = _product(e)
+                rest = e
+                oc = tcall(lr[0], "compute_jacobian_inverse") if lr is not None else None
+                if has_out:
+                    if oc is None:
+                        ok_out = False
+                        continue
+                    g, at = oc
+                    n_with_out += 1
+                    ok_out = ok_out and g == "OUTPUT_GROUP"
+                    # at the raw (transformed-space) outputs of the model at the transformed input
+                    raw = at if isinstance(at, ast.Call) and isinstance(at.func, ast.Attribute) and at.func.attr in ("predict_raw", "_predict") and dotted(at.func.value) == algo else None
+                    ra = _only_argument(raw, "input_data") if raw is not None else None
+                    ok_raw = ok_raw and ra is not None and is_tx(ra, has_in)
+                    rest = lr[1]
+                elif oc is not None:
+                    ok_out = False
+                    continue
+                lr2 = _product(rest)
+                if lr2 is None:
+                    ok_model = False
+                    continue
+                mj, ij = lr2
+                # model Jacobian: func(algo, <T_in(x) or x>, ...), on the left of the input transformer's Jacobian
+                ok_model = ok_model and isinstance(mj, ast.Call) and dotted(mj.func) == func and len(mj.args) >= 2 and norm_stmt(mj.args[0]) == algo and is_tx(mj.args[1], has_in)
+                tc = tcall(ij, "compute_jacobian")
+                if has_in:
+                    n_with_in += 1
+                    ok_in = ok_in and tc is not None and tc[0] == "INPUT_GROUP" and norm_stmt(tc[1]) == x
+                else:
+                    ok_in = ok_in and isinstance(ij, ast.Call) and last_attr(ij) in ("eye", "identity")
+    ctx.ob("18.8-regressor-chain", con, bool(ok_in and n_with_in), "the Jacobian of the input transformer is taken at the ORIGINAL input data (before they are transformed) and is the right-most factor", node=w, stmt="J_in = transformer[inputs].compute_jacobian(input_data)")
+    ctx.ob("18.8-regressor-chain", con, bool(ok_model), "the model's own Jacobian is taken at the transformed input data (the data the raw model sees) and multiplies J_in on the left", node=w, stmt="J = func(algo, T_in(input_data)) @ J_in")
+    ctx.ob("18.8-regressor-chain", con, bool(ok_out and ok_raw and n_with_out), "the Jacobian of the inverse output transformation is taken at the RAW outputs of the model at the transformed inputs and is the left-most factor", node=w, stmt="J = transformer[outputs].compute_jacobian_inverse(raw outputs) @ J")
+
+
 def run(ctx: Ctx) -> None:
     check_kernels(ctx)
     check_openturns_gradients(ctx)
     check_surrogate(ctx)
     check_pipeline(ctx)
     check_moe(ctx)
+    check_scaler(ctx)
+    check_pca(ctx)
+    check_transformed_jacobian(ctx)
 
 
 _SC = "/scipy"
@@ -828,10 +1096,27 @@ WITNESSES = [
     {"name": "surrogate-predicts-defaults", "file": SUR, "old": "self.regression_model.predict(input_data).items()", "new": "self.regression_model.predict(self.io.input_grammar.defaults).items()", "expect": "18.2"},
     {"name": "surrogate-jacobian-at-defaults", "file": SUR, "old": "self.regression_model.predict_jacobian(self.io.get_input_data())", "new": "self.regression_model.predict_jacobian(self.io.input_grammar.defaults)", "expect": "18.2"},
     {"name": "surrogate-output-under-other-name", "file": SUR, "old": "            output_data[name] = value.flatten()", "new": "            output_data[name.lower()] = value.flatten()", "expect": "18.2"},
+    {"name": "scaler-inverse-adds-offset", "file": SCL, "old": "        return (data - self.offset) @ diag(1 / self.coefficient)", "new": "        return (data + self.offset) @ diag(1 / self.coefficient)", "expect": "18.6"},
+    {"name": "scaler-inverse-offset-after-scaling", "file": SCL, "old": "        return (data - self.offset) @ diag(1 / self.coefficient)", "new": "        return data @ diag(1 / self.coefficient) - self.offset", "expect": "18.6"},
+    {"name": "scaler-jacobian-inverse-not-inverted", "file": SCL, "old": "        return tile(diag(1 / self.coefficient), (len(data), 1, 1))", "new": "        return tile(diag(self.coefficient), (len(data), 1, 1))", "expect": "18.6"},
+    {"name": "scaler-jacobian-inverted", "file": SCL, "old": "        return tile(diag(self.coefficient), (len(data), 1, 1))", "new": "        return tile(diag(1 / self.coefficient), (len(data), 1, 1))", "expect": "18.6"},
+    {"name": "pca-jacobian-scaler-on-the-left", "file": PCA_, "old": "        return tile(\n            self.algo.components_, (len(data), 1, 1)\n        ) @ self.__scaler.compute_jacobian(data)", "new": "        return self.__scaler.compute_jacobian(data) @ tile(\n            self.algo.components_, (len(data), 1, 1)\n        )", "expect": "18.7"},
+    {"name": "pca-inverse-jacobian-at-reduced-data", "file": PCA_, "old": "        return self.__scaler.compute_jacobian_inverse(data_) @ tile(", "new": "        return self.__scaler.compute_jacobian_inverse(data) @ tile(", "expect": "18.7"},
+    {"name": "pca-inverse-jacobian-not-transposed", "file": PCA_, "old": "            self.algo.components_.T, (len(data), 1, 1)", "new": "            self.algo.components_, (len(data), 1, 1)", "expect": "18.7"},
+    {"name": "pca-transform-skips-scaler", "file": PCA_, "old": "        return self.algo.transform(self.__scaler.transform(data))", "new": "        return self.algo.transform(data)", "expect": "18.7"},
+    {"name": "regressor-input-jacobian-at-transformed-data", "file": RDF, "old": "                jac = algo.transformer[inputs].compute_jacobian(input_data)\n                input_data = algo.transformer[inputs].transform(input_data)", "new": "                input_data = algo.transformer[inputs].transform(input_data)\n                jac = algo.transformer[inputs].compute_jacobian(input_data)", "expect": "18.8"},
+    {"name": "regressor-jacobian-right-multiplied", "file": RDF, "old": "            jac = func(algo, input_data, *args, **kwargs) @ jac", "new": "            jac = jac @ func(algo, input_data, *args, **kwargs)", "expect": "18.8"},
+    {"name": "regressor-output-jacobian-forward", "file": RDF, "old": "                    algo.transformer[outputs].compute_jacobian_inverse(output_data)", "new": "                    algo.transformer[outputs].compute_jacobian(output_data)", "expect": "18.8"},
+    {"name": "regressor-output-jacobian-of-input-transformer", "file": RDF, "old": "                    algo.transformer[outputs].compute_jacobian_inverse(output_data)", "new": "                    algo.transformer[inputs].compute_jacobian_inverse(output_data)", "expect": "18.8"},
+    {"name": "regressor-output-jacobian-at-final-outputs", "file": RDF, "old": "            output_data = algo.predict_raw(input_data)", "new": "            output_data = algo.predict(input_data)", "expect": "18.8"},
 ]
 TWINS = [
     {"name": "multiquadric-derivative-rewritten", "file": RBF, "old": "            return input_data / eps**2 / sqrt((norm_input_data / eps) ** 2 + 1)", "new": "            return input_data / (eps * sqrt(norm_input_data**2 + eps**2))"},
     {"name": "cubic-derivative-commuted", "file": RBF, "old": "            return 3 * norm_input_data * input_data", "new": "            return input_data * norm_input_data * 3"},
     {"name": "pipeline-reversed-builtin", "file": PIP, "old": "        for transformer in self.transformers[::-1]:\n            jacobian = transformer.compute_jacobian_inverse(data) @ jacobian", "new": "        for transformer in reversed(self.transformers):\n            jacobian = transformer.compute_jacobian_inverse(data) @ jacobian"},
     {"name": "flatten-to-ravel", "file": SUR, "old": "            output_data[name] = value.flatten()", "new": "            output_data[name] = value.ravel()"},
+    {"name": "scaler-componentwise-product", "file": SCL, "old": "        return data @ diag(self.coefficient) + self.offset", "new": "        return data * self.coefficient + self.offset"},
+    {"name": "scaler-inverse-division", "file": SCL, "old": "        return (data - self.offset) @ diag(1 / self.coefficient)", "new": "        return (data - self.offset) / self.coefficient"},
+    {"name": "pca-lift-inlined", "file": PCA_, "old": "        data_ = self.algo.inverse_transform(data)\n        return self.__scaler.compute_jacobian_inverse(data_) @ tile(", "new": "        return self.__scaler.compute_jacobian_inverse(\n            self.algo.inverse_transform(data)\n        ) @ tile("},
+    {"name": "regressor-model-jacobian-local", "file": RDF, "old": "            jac = func(algo, input_data, *args, **kwargs) @ jac", "new": "            model_jac = func(algo, input_data, *args, **kwargs)\n            jac = model_jac @ jac"},
 ]
